@@ -275,6 +275,79 @@ def qbfs_closed(n, u):
     raise ValueError
 
 
+def _forbes_gamma(n, m):
+    """gamma_n^m of Forbes (2012) for n >= 1, m >= 2, iteratively: gamma_1^2 = 3/8, gamma_1^m = (2m-1)/(2(m-2)) gamma_1^(m-1),
+    gamma_n^m = n(2m+2n-3)/((m+n-3)(2n-1)) gamma_(n-1)^m"""
+    g = Fr(3, 8)
+    for mm in range(3, m + 1):
+        g *= Fr(2 * mm - 1, 2 * (mm - 2))
+    for nn in range(2, n + 1):
+        g *= Fr(nn * (2 * m + 2 * nn - 3), (m + nn - 3) * (2 * nn - 1))
+    return g
+
+
+def _dfact(k):
+    r = 1
+    while k > 1:
+        r *= k
+        k -= 2
+    return r
+
+
+def forbes_FG(n, m):
+    """(F_n^m, G_n^m), Forbes (2012) (A.13), (A.15), exact"""
+    if n == 0:
+        F = Fr(1, 4) if m == 1 else Fr(m * m * _dfact(2 * m - 3), 2 ** (m + 1) * math.factorial(m - 1))
+        G = Fr(_dfact(2 * m - 1), 2 ** (m + 1) * math.factorial(m - 1))
+    elif m == 1:
+        F = Fr(4 * (n - 1) ** 2 * n ** 2 + 1, 8 * (2 * n - 1) ** 2) + (Fr(11, 32) if n == 1 else 0)
+        G = -Fr((2 * n * n - 1) * (n * n - 1), 8 * (4 * n * n - 1)) - (Fr(1, 24) if n == 1 else 0)
+    else:
+        chi = m + n - 2
+        gam = _forbes_gamma(n, m)
+        F = Fr(2 * n * chi * (3 - 5 * m + 4 * n * chi) + m * m * (3 - m + 4 * n * chi),
+               (m + 2 * n - 3) * (m + 2 * n - 2) * (m + 2 * n - 1) * (2 * n - 1)) * gam
+        G = -Fr((2 * n * (m + n - 1) - m) * (n + 1) * (2 * m + 2 * n - 1),
+                (m + 2 * n - 2) * (m + 2 * n - 1) * (m + 2 * n) * (2 * n + 1)) * gam
+    return F, G
+
+
+def forbes_abc(n, m):
+    """Forbes (2012) (A.3), exact"""
+    D = (4 * n * n - 1) * (m + n - 2) * (m + 2 * n - 3)
+    return (Fr((2 * n - 1) * (m + 2 * n - 2) * (4 * n * (m + n - 2) + (m - 3) * (2 * m - 1)), D),
+            Fr(-2 * (2 * n - 1) * (m + 2 * n - 3) * (m + 2 * n - 2) * (m + 2 * n - 1), D),
+            Fr(n * (2 * n - 3) * (m + 2 * n - 1) * (2 * m + 2 * n - 3), D))
+
+
+def forbes_fg(nmax, m):
+    """f_0..f_nmax, g_0..g_nmax (A.18) in double precision from the exact F, G"""
+    f, g = [], []
+    for n in range(nmax + 1):
+        F, G = forbes_FG(n, m)
+        f.append(math.sqrt(float(F) - (g[-1] ** 2 if n else 0.0)))
+        g.append(float(G) / f[-1])
+    return f, g
+
+
+def q2d_forbes(n, m, u, t):
+    """own transcription of Forbes' 2D-Q definition (Opt. Express 20(3) 2483, appendix A): Q_n^m(u^2) u^|m| cos(m t) | sin(|m| t), m != 0"""
+    am = abs(m)
+    x = u * u
+    P = [0.5, (1 - x / 2) if am == 1 else (am - 0.5) + (1 - am) * x]
+    if am == 1:
+        P += [(3 - x * (12 - 8 * x)) / 6, (5 - x * (60 - x * (120 - 64 * x))) / 10]
+    while len(P) <= n:
+        k = len(P)
+        A, B, C_ = forbes_abc(k - 1, am)
+        P.append((float(A) + float(B) * x) * P[k - 1] - float(C_) * P[k - 2])
+    f, g = forbes_fg(n, am)
+    Q = [1 / (2 * f[0])]
+    for k in range(1, n + 1):
+        Q.append((P[k] - g[k - 1] * Q[k - 1]) / f[k])
+    return Q[n] * u ** am * (math.cos(am * t) if m > 0 else math.sin(am * t))
+
+
 def textbook(fam, n, k, x):
     """exact / trig textbook value at a single rational point x; None if no independent formula"""
     if fam == 'jacobi':
@@ -343,6 +416,297 @@ def n0_consumers(p, JW, a, b, pts, kmax=4):
     return None
 
 
+def _num_der(f, x, h=2.0 ** -18):
+    """4th-order central difference"""
+    return (8 * (f(x + h) - f(x - h)) - (f(x + 2 * h) - f(x - 2 * h))) / (12 * h)
+
+
+def fast_sum(p, QP, JW, spec, u, t):
+    """a summation routine against the explicit sum of its terms (values and first derivatives) -> None or a description.
+    spec: {'route': 'q2d', 'm': m, 'cm0': [...], 'a': [...], 'b': [...]} | {'route': 'qbfs'|'qcon', 'c': [...]} |
+          {'route': 'jacobi', 'c': [...], 'params': [alpha, beta]}"""
+    u = np.asarray(u, dtype=float)
+    t = np.asarray(t, dtype=float)
+    r = spec['route']
+    if r == 'q2d':
+        m = spec['m']
+        a, b, c0 = list(spec.get('a', [])), list(spec.get('b', [])), list(spec.get('cm0', []))
+
+        def explicit(uu, tt):
+            z = np.zeros_like(uu)
+            for n, c in enumerate(c0):
+                z = z + c * p.Qbfs(n, uu)
+            for n, c in enumerate(a):
+                z = z + c * p.Q2d(n, m, uu, tt)
+            for n, c in enumerate(b):
+                z = z + c * p.Q2d(n, -m, uu, tt)
+            return z
+        ams = [()] * (m - 1) + [a]
+        bms = [()] * (m - 1) + [b]
+        z, dr, dt = QP.compute_z_zprime_Q2d(c0 if c0 else None, ams, bms, u, t)
+        want = (explicit(u, t), _num_der(lambda v: explicit(v, t), u), _num_der(lambda v: explicit(u, v), t))
+        what = (f'compute_z_zprime_Q2d(cm0={c0}, cosine m={m} coefficients {a} ({len(a)} radial terms), sine m={m} coefficients {b} '
+                f'({len(b)} radial terms))')
+        names = ('sag', 'radial derivative', 'azimuthal derivative')
+        got = (z, dr, dt)
+    elif r in ('qbfs', 'qcon'):
+        c = list(spec['c'])
+        one = p.Qbfs if r == 'qbfs' else p.Qcon
+
+        def explicit(uu):
+            return sum((ck * one(n, uu) for n, ck in enumerate(c)), np.zeros_like(uu))
+        fn = QP.compute_z_zprime_Qbfs if r == 'qbfs' else QP.compute_z_zprime_Qcon
+        z, dz = fn(c, u, u * u)
+        want = (explicit(u), _num_der(explicit, u))
+        what = f'compute_z_zprime_{"Qbfs" if r == "qbfs" else "Qcon"}({c}) ({len(c)} terms)'
+        names = ('sag', 'radial derivative')
+        got = (z, dz)
+    else:
+        c = list(spec['c'])
+        al, be = spec['params']
+        x = 2 * u - 1
+        want = (sum((ck * p.jacobi(n, al, be, x) for n, ck in enumerate(c)), np.zeros_like(x)),
+                sum((ck * p.jacobi_der(n, al, be, x) for n, ck in enumerate(c)), np.zeros_like(x)))
+        dd = JW.jacobi_sum_clenshaw_der(c, al, be, x, j=1)
+        got = (JW.jacobi_sum_clenshaw(c, al, be, x), dd[1][0])
+        what = f'jacobi_sum_clenshaw(_der)({c}, {al}, {be}) ({len(c)} terms)'
+        names = ('sum', 'first derivative')
+    for nm, g, w in zip(names, got, want):
+        g = np.asarray(g, dtype=float)
+        tol = TOL if nm in ('sag', 'sum') or r == 'jacobi' else 1e-6
+        if g.shape != np.shape(w) or not close(g, w, tol):
+            return (f'{what}: the {nm} {g.tolist()} differs from that of the explicit sum of the single polynomials {np.asarray(w).tolist()} '
+                    f'at u = {u.tolist()}, t = {t.tolist()}')
+    return None
+
+
+def fast_sum_specs(rng, scale):
+    """every (route, cosine/sine, m, number of terms): one-hot vectors for every position of every length 1..7 (so every length on
+    either side of a special-case threshold, for the cosine and the sine coefficients separately), random dense vectors, cosine and
+    sine sums of unequal lengths together, with and without m = 0 terms"""
+    Lmax = 7
+    rnd = lambda L: [float(v) for v in np.round(rng.uniform(0.5, 1.5, L) * 16) / 16]      # noqa: E731
+    specs = []
+    for m in range(1, scale(4, 7) + 1):
+        for L in range(1, Lmax + 1):
+            for side in ('a', 'b'):
+                for j in range(L):
+                    specs.append({'route': 'q2d', 'm': m, side: [0.0] * j + [1.0] + [0.0] * (L - 1 - j)})
+                specs.append({'route': 'q2d', 'm': m, side: rnd(L)})
+        for La in range(0, Lmax + 1):
+            for Lb in range(0, Lmax + 1):
+                if La + Lb and (m <= 2 or (La + 2 * Lb + m) % scale(3, 1) == 0):
+                    specs.append({'route': 'q2d', 'm': m, 'a': rnd(La), 'b': rnd(Lb), 'cm0': rnd((La + Lb) % 4)})
+    for route in ('qbfs', 'qcon'):
+        for L in range(1, Lmax + 1):
+            for j in range(L):
+                specs.append({'route': route, 'c': [0.0] * j + [1.0] + [0.0] * (L - 1 - j)})
+            specs.append({'route': route, 'c': rnd(L)})
+    for (al, be) in [(0.0, 0.0), (-0.5, -0.5), (0.5, -0.5), (-0.25, -0.75), (0.0, 4.0), (2.3, -0.9), (1.0, 2.0)][:scale(4, 7)]:
+        for L in range(1, Lmax + 1):
+            for j in range(L):
+                specs.append({'route': 'jacobi', 'params': [al, be], 'c': [0.0] * j + [1.0] + [0.0] * (L - 1 - j)})
+            specs.append({'route': 'jacobi', 'params': [al, be], 'c': rnd(L)})
+    return specs
+
+
+
+# ------------------------------------------------------------------------------------------------
+# state carried between calls through a caller-owned coordinate ARRAY: evaluate / change the array in place / evaluate again
+# ------------------------------------------------------------------------------------------------
+MUTATIONS = ['scale', 'refill', 'partial', 'ufunc-out', 'normalise']
+
+
+def _mutate(x, kind):
+    """deterministic in-place change of a caller-owned coordinate array: the SAME object holds other points afterwards
+    (all forms keep the points inside every family's domain: they shrink towards 0)"""
+    if kind == 'scale':
+        x *= 0.5
+    elif kind == 'refill':
+        x.flat[:] = 0.75 * np.array(x, copy=True).ravel()[::-1]
+    elif kind == 'partial':
+        x.flat[::2] = 0.5 * np.array(x, copy=True).ravel()[::2]
+    elif kind == 'ufunc-out':
+        np.multiply(x, 0.5, out=x)
+    else:
+        x /= 2 * max(1.0, float(np.abs(x).max()))
+
+
+def routine_specs():
+    """every value routine of every family and every *_seq routine: (spec, domains of its coordinate arrays)"""
+    out = []
+    for fam, (impl, drv, dom, maxn, exact) in FAMS.items():
+        for n in (0, 3):
+            out.append(({'routine': fam, 'order': n}, [dom]))
+        out.append(({'routine': fam + '_seq', 'ns': [0, 2, 3]}, [dom]))
+    for (n, m) in ((2, 0), (3, 1), (4, -2)):
+        out.append(({'routine': 'zernike_nm', 'order': [n, m], 'norm': True}, [(0, 1), (-3, 3)]))
+        out.append(({'routine': 'Q2d', 'order': [n, m]}, [(0, 1), (-3, 3)]))
+    out.append(({'routine': 'Q2d', 'order': [0, 0]}, [(0, 1), (-3, 3)]))
+    out.append(({'routine': 'Q2d', 'order': [5, -1]}, [(0, 1), (-3, 3)]))
+    out.append(({'routine': 'xy', 'order': [2, 3]}, [(-2, 2), (-2, 2)]))
+    out.append(({'routine': 'hopkins', 'order': [-2, 2, 1]}, [(0, 1), (-3, 3), (0, 1)]))
+    out.append(({'routine': 'zernike_nm_seq', 'pairs': [[2, 0], [3, 1], [3, -1]], 'norm': True}, [(0, 1), (-3, 3)]))
+    out.append(({'routine': 'zernike_nm_seq', 'pairs': [[2, 2], [4, -2]], 'norm': False}, [(0, 1), (-3, 3)]))
+    out.append(({'routine': 'Q2d_seq', 'pairs': [[2, 0], [1, 1], [3, -2], [0, 0]]}, [(0, 1), (-3, 3)]))
+    out.append(({'routine': 'xy_seq', 'pairs': [[1, 2], [0, 3], [2, 0]]}, [(-2, 2), (-2, 2)]))
+    return out
+
+
+def routine_call(p, spec):
+    """spec -> function of the coordinate arrays"""
+    r = spec['routine']
+    if r in FAMS:
+        k = params_for(r, None, 0)[spec['order'] % len(params_for(r, None, 0))]
+        return lambda x: FAMS[r][0](p, spec['order'], k, x)
+    if r.endswith('_seq') and r[:-4] in SEQS:
+        fam = r[:-4]
+        k = params_for(fam, None, 0)[1 % len(params_for(fam, None, 0))]
+        return lambda x: SEQS[fam](p, list(spec['ns']), k, x)
+    if r == 'zernike_nm':
+        return lambda a, b: p.zernike_nm(spec['order'][0], spec['order'][1], a, b, norm=spec['norm'])
+    if r == 'Q2d':
+        return lambda a, b: p.Q2d(spec['order'][0], spec['order'][1], a, b)
+    if r == 'xy':
+        return lambda a, b: p.xy(spec['order'][0], spec['order'][1], a, b, cartesian_grid=False)
+    if r == 'hopkins':
+        return lambda a, b, c: p.hopkins(*spec['order'], a, b, c)
+    prs = [tuple(q) for q in spec['pairs']]
+    if r == 'zernike_nm_seq':
+        return lambda a, b: p.zernike_nm_seq(prs, a, b, norm=spec['norm'])
+    if r == 'Q2d_seq':
+        return lambda a, b: p.Q2d_seq(prs, a, b)
+    if r == 'xy_seq':
+        return lambda a, b: p.xy_seq(prs, a, b, cartesian_grid=False)
+    raise KeyError(r)
+
+
+def _det_points(dom, shape, j=0):
+    """generic deterministic dyadic points inside the open domain (never 0, an end point or a symmetric pair)"""
+    lo, hi = dom
+    n = int(np.prod(shape))
+    v = lo + (hi - lo) * (((np.arange(1, n + 1) * (0.6180339887 + 0.1 * j)) % 1) * 0.9 + 0.05)
+    return (np.round(v * 64) / 64).reshape(shape)
+
+
+def inplace_reuse(p, spec, shape, which, kind, interleave=False):
+    """evaluate on caller-owned arrays, change array `which` in place, evaluate again on the same objects: the second result must be
+    the evaluation at the points the arrays hold NOW (= evaluation on fresh copies), and the first result must not have been
+    overwritten.  interleave: another evaluation on unrelated arrays happens between the two.  -> None or a description"""
+    call = routine_call(p, spec)
+    doms = [d for sp, d in routine_specs() if sp['routine'] == spec['routine']][0]
+    arrs = [_det_points(d, shape, j) for j, d in enumerate(doms)]
+    start = [a.tolist() for a in arrs]
+    o1 = call(*arrs)
+    keep = np.array(o1, copy=True)
+    if interleave:
+        call(*[_det_points(d, shape, j + 3) for j, d in enumerate(doms)])
+    _mutate(arrs[which], kind)
+    o2 = np.asarray(call(*arrs))
+    fresh = np.asarray(call(*[np.array(a, copy=True) for a in arrs]))
+    what = (f'{spec}: evaluated on coordinate arrays {start}, then array #{which} changed IN PLACE ({kind}) to {arrs[which].tolist()}'
+            + (', another evaluation on unrelated arrays in between' if interleave else '') + ', then evaluated again on the same objects')
+    if o2.shape != fresh.shape or not close(o2, fresh, 1e-12):
+        return (f'{what}: the second result {o2.ravel()[:4].tolist()} is not the evaluation at the current points '
+                f'{fresh.ravel()[:4].tolist()} (the result of the FIRST call was {keep.ravel()[:4].tolist()})')
+    if o1 is not o2 and not np.array_equal(np.asarray(o1), keep, equal_nan=True):
+        return f'{what}: the array returned by the first call was modified by the second call'
+    return None
+
+
+# ------------------------------------------------------------------------------------------------
+# keyword arguments at their non-default value on inputs where they matter
+# ------------------------------------------------------------------------------------------------
+GRIDS = ['rotated', 'sheared', 'polar', 'scattered', 'ij-meshgrid', 'rotated-3d']
+
+
+def grid2d(kind, shape=(3, 4)):
+    """deterministic genuinely multi-dimensional coordinate pairs that are NOT a product grid aligned with the array axes"""
+    ny, nx = shape
+    xs = (np.arange(nx) - (nx - 1) / 2) * 0.5 + 0.125
+    ys = (np.arange(ny) - (ny - 1) / 2) * 0.75 - 0.0625
+    X, Y = np.meshgrid(xs, ys)
+    if kind == 'meshgrid':
+        return X, Y
+    if kind == 'rotated':
+        c, s_ = math.cos(0.5), math.sin(0.5)
+        return c * X - s_ * Y, s_ * X + c * Y
+    if kind == 'sheared':
+        return X + 0.5 * Y, Y + 0.25 * X
+    if kind == 'polar':
+        R = 0.25 + 0.375 * np.arange(ny)[:, None] + 0 * X
+        T = 0.3 + 0.9 * np.arange(nx)[None, :] + 0.2 * np.arange(ny)[:, None]
+        return R * np.cos(T), R * np.sin(T)
+    if kind == 'scattered':
+        return _det_points((-2, 2), shape, 0), _det_points((-2, 2), shape, 2)
+    if kind == 'ij-meshgrid':
+        A, B = np.meshgrid(xs, ys, indexing='ij')
+        return A, B
+    c, s_ = math.cos(0.5), math.sin(0.5)
+    X3, Y3 = np.stack([X, X + 0.25]), np.stack([Y, Y - 0.5])
+    return c * X3 - s_ * Y3, s_ * X3 + c * Y3
+
+
+def keyword_case(p, spec):
+    """a routine called with a keyword at its non-default value (by name or by position) on input where the keyword changes the
+    answer -> None or a description.  spec: {'routine': 'xy'|'xy_seq', 'grid': kind, 'order' | 'pairs', 'style': 'kw'|'pos'} |
+    {'routine': 'zernike_nm'|'zernike_nm_seq', 'norm': bool, 'style': ..., 'order' | 'pairs'}"""
+    r, style = spec['routine'], spec.get('style', 'kw')
+    if r in ('xy', 'xy_seq'):
+        X, Y = grid2d(spec['grid'])
+        pairs = [tuple(spec['order'])] if r == 'xy' else [tuple(q) for q in spec['pairs']]
+        want = np.array([X ** m * Y ** n for m, n in pairs])
+        if r == 'xy':
+            got = p.xy(*pairs[0], X, Y, cartesian_grid=False) if style == 'kw' else p.xy(*pairs[0], X, Y, False)
+            got = np.asarray(got)[None]
+        else:
+            got = np.asarray(p.xy_seq(pairs, X, Y, cartesian_grid=False) if style == 'kw' else p.xy_seq(pairs, X, Y, False))
+        if got.shape != want.shape or not close(got, want):
+            i = 0 if got.shape != want.shape else int(np.argmax([not close(g, w) for g, w in zip(got, want)]))
+            if got.shape == want.shape:
+                j = int(np.argmax(np.abs(np.asarray(got[i], dtype=float) - want[i]).ravel()))
+                diff = (f'at the point (x, y) = ({float(X.ravel()[j])}, {float(Y.ravel()[j])}) (flat index {j}) it returns {float(np.asarray(got[i]).ravel()[j])} '
+                        f'but x^m y^n = {float(want[i].ravel()[j])} for (m, n) = {list(pairs[i])}')
+            else:
+                diff = f'returned mode shape {got.shape[1:]}, the coordinates have shape {X.shape}'
+            return (f'{r}({list(pairs[i]) if r == "xy" else [list(q) for q in pairs]}, x, y, cartesian_grid=False{" (positional)" if style == "pos" else ""}) on '
+                    f'{spec["grid"]} coordinates of shape {X.shape}: {diff}')
+        return None
+    norm = bool(spec['norm'])
+    R = _det_points((0, 1), (3, 4), 0)
+    T = _det_points((-3, 3), (3, 4), 1)
+    pairs = [tuple(spec['order'])] if r == 'zernike_nm' else [tuple(q) for q in spec['pairs']]
+    want = []
+    for (n, m) in pairs:
+        am = abs(m)
+        rad = np.array([float(zernike_radial_explicit(n, am, Fr(float(v)))) for v in R.ravel()]).reshape(R.shape)
+        az = 1.0 if m == 0 else (np.sin(am * T) if m < 0 else np.cos(am * T))
+        want.append(rad * az * (math.sqrt(2 * (n + 1) / (1 + (1 if m == 0 else 0))) if norm else 1.0))
+    want = np.array(want)
+    if r == 'zernike_nm':
+        got = np.asarray(p.zernike_nm(*pairs[0], R, T, norm=norm) if style == 'kw' else p.zernike_nm(*pairs[0], R, T, norm))[None]
+    else:
+        got = np.asarray(p.zernike_nm_seq(pairs, R, T, norm=norm) if style == 'kw' else p.zernike_nm_seq(pairs, R, T, norm))
+    if got.shape != want.shape or not close(got, want):
+        return (f'{r}({[list(q) for q in pairs]}, r, t, norm={norm}{" (positional)" if style == "pos" else ""}) on 2-D r and a VARYING 2-D t differs from '
+                f'{"sqrt(2(n+1)/(1+delta_m0)) * " if norm else ""}R_n^|m|(r) cos/sin(|m| t)')
+    return None
+
+
+def keyword_specs():
+    out = []
+    for gi, grid in enumerate(GRIDS):
+        for (m, n) in ((1, 0), (0, 1), (2, 1), (1, 3), (3, 2)):
+            out.append({'routine': 'xy', 'order': [m, n], 'grid': grid, 'style': 'kw' if (m + n + gi) % 2 else 'pos'})
+        for style in ('kw', 'pos'):
+            out.append({'routine': 'xy_seq', 'pairs': [[1, 0], [0, 2], [2, 1], [3, 3]], 'grid': grid, 'style': style})
+    for norm in (False, True):
+        for style in ('kw', 'pos'):
+            for (n, m) in ((0, 0), (1, -1), (2, 0), (3, 1), (4, -2), (5, 5)):
+                out.append({'routine': 'zernike_nm', 'order': [n, m], 'norm': norm, 'style': style})
+            out.append({'routine': 'zernike_nm_seq', 'pairs': [[2, 0], [3, 1], [3, -1], [4, 4], [4, -2]], 'norm': norm, 'style': style})
+    return out
+
 # ------------------------------------------------------------------------------------------------
 def _coverage_predicates(ctx, p, scale):
     rng = ctx.rng
@@ -398,6 +762,18 @@ def _coverage_predicates(ctx, p, scale):
         d = _try(ctx, 'textbook:jacobi-n0-coefficients', case, lambda: n0_consumers(p, JW, a, b, pts))
         if d is not _FAILED and d:
             ctx.pred_fail('textbook:jacobi-n0-coefficients', case, d)
+    # summation routines (Clenshaw) against the explicit sum of the single polynomials, every length / family / position
+    QP = importlib.import_module('prysm.polynomials.qpoly')
+    for spec in fast_sum_specs(rng, scale):
+        u = np.clip(dyadic(rng, 0, 1, (4,)), 5 / 64, 60 / 64)
+        t = dyadic(rng, -3, 3, (4,))
+        case = {'family': 'sum', 'spec': spec, 'points': u.tolist(), 't': t.tolist()}
+        L = max(len(spec.get(q, [])) for q in ('a', 'b', 'c'))
+        ctx.case(f'sum:{spec["route"]}', case, nontrivial=L >= 2,
+                 tag=(f'm{min(spec.get("m", 0), 3)}/' if spec['route'] == 'q2d' else '') + ('cos' if spec.get('a') and not spec.get('b') else 'sin' if spec.get('b') and not spec.get('a') else 'both' if spec.get('a') else 'single') + f'/L{L}')
+        d = _try(ctx, f'sum:{spec["route"]}', case, lambda: fast_sum(p, QP, JW, spec, u, t))
+        if d is not _FAILED and d:
+            ctx.pred_fail(f'sum:{spec["route"]}', case, d)
     # the weight function the library reports for the Jacobi family, against (1-x)^alpha (1+x)^beta
     for (a, b) in JAC_PARAMS + [(0.0, float(m)) for m in range(1, 7)] + [(float(np.round(rng.uniform(-0.9, 3) * 8) / 8), float(np.round(rng.uniform(-0.9, 3) * 8) / 8)) for _ in range(scale(4, 40))]:
         for lay, x in (('1d', np.clip(dyadic(rng, -1, 1, (6,)), -63 / 64, 63 / 64)), ('2d', np.clip(dyadic(rng, -1, 1, (3, 4)), -63 / 64, 63 / 64)),
@@ -470,6 +846,28 @@ def _coverage_predicates(ctx, p, scale):
                 want = p.Q2d(n, abs(m), u, np.zeros_like(u)) * (np.cos(m * t) if m > 0 else np.sin(abs(m) * t))
             if not close(out, want):
                 ctx.pred_fail('textbook:q2d-azimuth', case, f'Q2d({n},{m},u,t) is not R_n^|m|(u) * ' + ('Qbfs' if m == 0 else 'cos(m t)' if m > 0 else 'sin(|m| t)'))
+    # keyword arguments at their non-default value (by name / by position) on inputs where the keyword matters
+    for spec in keyword_specs():
+        item = 'keyword:' + spec['routine']
+        ctx.case(item, spec, nontrivial=True, tag=f"{spec.get('grid', 'norm=' + str(spec.get('norm')))}/{spec['style']}")
+        d = _try(ctx, item, spec, lambda: keyword_case(p, spec))
+        if d is not _FAILED and d:
+            ctx.pred_fail(item, spec, d)
+    # caller-owned coordinate arrays changed in place between two evaluations (every value routine, every *_seq routine)
+    cold_state()
+    for ri, (spec, doms) in enumerate(routine_specs()):
+        for which in range(len(doms)):
+            for ki, kind in enumerate(MUTATIONS):
+                if scale(0, 1) == 0 and (ri + ki + which) % 2:
+                    continue
+                shape = [(5,), (3, 4), (2, 3, 2)][(ri + ki) % 3]
+                inter = bool((ri + ki) % 3 == 1)
+                case = {'inplace': spec, 'shape': list(shape), 'which': which, 'mutation': kind, 'interleave': inter}
+                item = 'inplace:' + spec['routine']
+                ctx.case(item, case, nontrivial=True, tag=f'{kind}/{"interleaved" if inter else "direct"}/{len(shape)}-D')
+                d = _try(ctx, item, case, lambda: inplace_reuse(p, spec, shape, which, kind, inter))
+                if d is not _FAILED and d:
+                    ctx.pred_fail(item, case, d)
 
 
 def correspondence(ctx):
@@ -524,11 +922,23 @@ def correspondence(ctx):
         lines.append(fline('hopkins', [a, b, c], [t, H], flat))
         meta.append(('hopkins', (a, b, c), (t, H), lname, pts))
 
+    # 2D-Q (Forbes): every (n, m) incl. m = 0 (delegation to Qbfs), |m| = 1 (special seeds, loop from 4) and |m| >= 2 (loop from 2)
+    for n in range(0, scale(14, 26)):
+        for m in range(-scale(6, 10), scale(6, 10) + 1):
+            if not deep and abs(m) > 2 and (n + m) % 2:
+                continue
+            t = float(dyadic(rng, -3, 3, ()))
+            lay = layouts(rng, 0, 1)
+            lname, pts = lay[(n + m) % len(lay)]
+            flat = np.asarray(pts, dtype=float).ravel()
+            lines.append(fline('q2d', [n, m], [t], flat))
+            meta.append(('q2d', (n, m), (t,), lname, pts))
+
     rep = C.lean_driver('C07', lines)
     for (fam, n, k, lname, pts), r in zip(meta, rep):
         case = {'family': fam, 'order': n, 'params': list(k), 'layout': lname,
                 'points': np.asarray(pts, dtype=float).ravel().tolist()[:6]}
-        nontriv = (n >= 2) if isinstance(n, int) else (n[0] >= 2 if fam == 'zern' else sum(abs(v) for v in n) >= 2)
+        nontriv = (n >= 2) if isinstance(n, int) else (n[0] >= 2 if fam in ('zern', 'q2d') else sum(abs(v) for v in n) >= 2)
         ctx.case(f'value:{fam}', case, nontrivial=nontriv, tag=lname)
         if r == 'bad-op':
             raise C.ToolError(f'driver rejected {case}')
@@ -539,6 +949,9 @@ def correspondence(ctx):
             elif fam == 'zern':
                 tt = np.full(np.shape(pts), k[0]) if isinstance(pts, np.ndarray) else k[0]
                 out = p.zernike_nm(n[0], n[1], pts, tt, norm=bool(n[2]))
+            elif fam == 'q2d':
+                tt = np.full(np.shape(pts), k[0]) if isinstance(pts, np.ndarray) else k[0]
+                out = p.Q2d(n[0], n[1], pts, tt)
             elif fam == 'xy':
                 yy = np.full(np.shape(pts), k[0]) if isinstance(pts, np.ndarray) else k[0]
                 out = p.xy(n[0], n[1], np.asarray(pts, dtype=float), np.asarray(yy, dtype=float), cartesian_grid=False)
@@ -612,6 +1025,20 @@ def correspondence(ctx):
         out = _try(ctx, 'textbook:zernike', case, lambda: p.zernike_nm(n, m, r, np.full_like(r, t), norm=True))
         if out is not _FAILED and not close(out, rad * az * nrm):
             ctx.pred_fail('textbook:zernike', case, f'zernike_nm({n},{m}) differs from norm * R_n^m(r) * cos/sin(m t)')
+
+    # 2D-Q against the harness' own transcription of Forbes' appendix A (exact F, G, A, B, C; double precision f, g, P, Q)
+    for n in range(0, scale(12, 22)):
+        for m in [q for q in range(-scale(5, 9), scale(5, 9) + 1) if q != 0]:
+            u = np.clip(dyadic(rng, 0, 1, (3,)), 1 / 64, 63 / 64)
+            t = float(dyadic(rng, -3, 3, ()))
+            case = {'family': 'q2d', 'order': [n, m], 'params': [t], 'points': u.tolist()}
+            ctx.case('textbook:q2d', case, nontrivial=n >= 2, tag='m1' if abs(m) == 1 else 'm>=2')
+            out = _try(ctx, 'textbook:q2d', case, lambda: p.Q2d(n, m, u, np.full_like(u, t)))
+            if out is _FAILED:
+                continue
+            want = [q2d_forbes(n, m, float(v), t) for v in u]
+            if not close(out, want, 1e-8):
+                ctx.pred_fail('textbook:q2d', case, f'Q2d({n},{m},u,{t}) = {np.asarray(out).tolist()} but Forbes\' definition (A.1-A.18) gives {want} at u = {u.tolist()}')
 
     # ---------------- 2a. integer / float32 coordinates, meshgrids with the default flags, array-valued field coordinate, 2D-Q conventions
     _coverage_predicates(ctx, p, scale)
@@ -709,9 +1136,36 @@ def correspondence(ctx):
     for n in range(0, 40):
         lines.append(f'fgh {n}')
         meta.append(('fgh', n, None, None))
+    from prysm import mathops as MO
+    for m in range(1, scale(8, 12) + 1):
+        for n in range(0, scale(16, 30)):
+            lines.append(f'q2dFG {n} {m}')
+            meta.append(('q2dFG', n, m, None))
+            if n >= 1 and m >= 2:
+                lines.append(f'q2dgam {n} {m}')
+                meta.append(('q2dgam', n, m, None))
+            if n >= 1 and (n, m) != (1, 1):          # (A.3) has D = 0 at n = m = 1: never requested by Q2d
+                lines.append(f'q2dabc {n} {m}')
+                meta.append(('q2dabc', n, m, None))
     rep = C.lean_driver('C07', lines)
     for (kind, n, a, b), r in zip(meta, rep):
         model = [C.w2f(s) for s in r.split()]
+        if kind.startswith('q2d'):
+            m = a
+            cs = {'n': n, 'm': m}
+            item = {'q2dFG': 'coeff:q2d-FGfg', 'q2dgam': 'coeff:q2d-gamma', 'q2dabc': 'coeff:q2d-abc'}[kind]
+            ctx.case(item, cs, nontrivial=n >= 1, tag='m1' if m == 1 else 'm>=2')
+            call = {'q2dFG': lambda: [float(Q.F_q2d(n, m)), float(Q.G_q2d(n, m)), float(Q.f_q2d(n, m)), float(Q.g_q2d(n, m))],
+                    'q2dgam': lambda: [float(MO.gamma(n, m))], 'q2dabc': lambda: [float(v) for v in Q.abc_q2d(n, m)]}[kind]
+            out = _try(ctx, item, cs, call, disagree=True)
+            if out is not _FAILED and not close(out, model, 1e-10):
+                ctx.disagree(item, cs, out, model)
+            if out is not _FAILED and kind != 'q2dgam':
+                F_, G_ = forbes_FG(n, m)
+                want = [float(v) for v in forbes_abc(n, m)] if kind == 'q2dabc' else [float(F_), float(G_)]
+                if not close(out[:len(want)], want, 1e-10):
+                    ctx.pred_fail(item, cs, f'{kind[3:]}({n},{m}) = {out[:len(want)]} but Forbes (A.3 / A.13 / A.15) gives {want}')
+            continue
         if kind == 'abc':
             ctx.case('coeff:abc', {'n': n, 'alpha': a, 'beta': b}, nontrivial=True)
             out = _try(ctx, 'coeff:abc', {'n': n, 'alpha': a, 'beta': b}, lambda: J.recurrence_abc(n, a, b), disagree=True)
@@ -938,6 +1392,10 @@ def _check_one(p, fam, n, k, x):
             am = abs(m)
             az = 1.0 if m == 0 else (math.sin(am * t) if m < 0 else math.cos(am * t))
             tb = float(zernike_radial_explicit(nn, am, Fr(x))) * az * math.sqrt(2 * (nn + 1) / (1 + (1 if m == 0 else 0)))
+        elif fam == 'q2d':
+            nn, m = n
+            out = float(np.asarray(p.Q2d(nn, m, np.array([x]), np.array([k[0]])))[0])
+            tb = textbook('qbfs', nn, (), Fr(x)) if m == 0 else q2d_forbes(nn, m, float(x), float(k[0]))
         elif fam == 'xy':
             out = float(p.xy(n[0], n[1], np.array([x]), np.array([k[0]]), cartesian_grid=False)[0])
             tb = x ** n[0] * k[0] ** n[1]
@@ -976,6 +1434,30 @@ def search(ctx, hints):
                     d = _check_one(p, 'zern', (n, m), (0.75,), x)
                     if d:
                         return {'item': 'textbook:zernike', 'input': {'family': 'zern', 'order': [n, m], 'params': [0.75], 'x': x}, 'detail': d}
+    for spec in keyword_specs():
+        try:
+            d = keyword_case(p, spec)
+        except Exception as ex:       # noqa
+            d = f'raised {type(ex).__name__}: {ex}'
+        if d:
+            return {'item': 'keyword:' + spec['routine'], 'input': spec, 'detail': d}
+    cold_state()
+    for spec, doms in routine_specs():
+        for which in range(len(doms)):
+            for kind, inter in (('scale', False), ('refill', True)):
+                try:
+                    d = inplace_reuse(p, spec, (3,), which, kind, inter)
+                except Exception as ex:       # noqa
+                    d = f'raised {type(ex).__name__}: {ex}'
+                if d:
+                    return {'item': 'inplace:' + spec['routine'],
+                            'input': {'inplace': spec, 'shape': [3], 'which': which, 'mutation': kind, 'interleave': inter}, 'detail': d}
+    for n in range(0, 13):
+        for m in (1, -1, 2, -2, 3, -3, 4, 5, -6, 0):
+            for x in (0.5, 0.875):
+                d = _check_one(p, 'q2d', (n, m), (0.75,), x)
+                if d:
+                    return {'item': 'textbook:q2d', 'input': {'family': 'q2d', 'order': [n, m], 'params': [0.75], 'x': x}, 'detail': d}
     for (m, n) in itertools.product(range(6), repeat=2):
         d = _check_one(p, 'xy', (m, n), (0.75,), -1.5)
         if d:
@@ -1036,6 +1518,28 @@ def replay(inp):
         for f in bad[:3]:
             print(f['detail'][:300])
         return bool(bad)
+    if 'inplace' in c:
+        cold_state()
+        p = P()
+        try:
+            d = inplace_reuse(p, c['inplace'], tuple(c['shape']), c['which'], c['mutation'], bool(c.get('interleave')))
+        except Exception as ex:       # noqa
+            d = f'raised {type(ex).__name__}: {ex}'
+        print(d or 'the second evaluation equals the evaluation at the current points of the arrays')
+        return bool(d)
+    if str(inp.get('item', '')).startswith('keyword:'):
+        try:
+            d = keyword_case(p, c)
+        except Exception as ex:       # noqa
+            d = f'raised {type(ex).__name__}: {ex}'
+        print(d or 'the routine honours the keyword on this input')
+        return bool(d)
+    if 'spec' in c:
+        import importlib
+        d = fast_sum(p, importlib.import_module('prysm.polynomials.qpoly'), importlib.import_module('prysm.polynomials.jacobi'),
+                     c['spec'], np.array(c['points'], dtype=float), np.array(c['t'], dtype=float))
+        print(d or 'the summation routine equals the explicit sum on this input')
+        return bool(d)
     if 'ns' in c:
         hist = inp.get('item', '').startswith('history-seq:')
         d = seq_textbook(p, c['family'], tuple(c.get('params', [])), c['ns'], np.array(c['points'], dtype=float), history=hist,
@@ -1072,25 +1576,42 @@ MANIFEST_ENTRY = {
     'text': ('PARTIAL.  PROVED for all orders n and all arguments (Lean 4, Mathlib; no sorry, standard axioms): the Lean text '
              'translated statement-by-statement from the current source — the WHOLE bodies of recurrence_abc, jacobi, hermite_He, hermite_H, '
              'laguerre, dickson1, dickson2, Qbfs, f/g/h_qbfs (index plumbing included), cheby1..4, legendre, Qcon, zernike_norm, zernike_nm '
-             '(sin, cos, sqrt as arbitrary functions), hopkins, and the return expression of xy; for-loops as folds whose state is addressed by '
+             '(sin, cos, sqrt as arbitrary functions), hopkins, the return expression of xy, and the 2D-Q (Forbes) code: abc_q2d, mathops.gamma, '
+             'F_q2d, G_q2d, f_q2d, g_q2d and the WHOLE body of Q2d (m = 0 delegation, sin/cos prefix with |m|, the hand-seeded P2, P3, Q2, Q3 and '
+             'the loop from 4 for |m| = 1, the loop from 2 otherwise) for every n and every m; for-loops as folds whose state is addressed by '
              'generated variable-name accessors — computes the hand model that the driver executes (the gen_* bridge theorems); recurrence_abc is '
              'DLMF 18.9.2 for every n>=1; jacobi equals the explicit hypergeometric sum of DLMF 18.5.7 for every n and alpha,beta>-1; '
              'P_n(1)=prod (k+alpha+1)/(k+1); reflection; cheby1/2 as written in the source equal Mathlib Chebyshev T/U, cheby3/4 equal the V/W '
              'recurrences (own transcription; their trigonometric definitions are only tested); Legendre satisfies Bonnet; hermite_He = Mathlib '
              'Polynomial.hermite, hermite_H(x) = s^n He_n(s x) for s^2=2; dickson1/2 = Mathlib Polynomial.dickson 1/2; laguerre satisfies DLMF '
              '18.9.13 and equals the explicit sum of DLMF 18.5.12; zernike_nm(n,m,r,t,norm) = sigma * r^|m| P^(0,|m|)_((n-|m|)/2)(2r^2-1) * '
-             '(sin(|m|t) for m<0, cos(|m|t) for m>0) on the source text; zernike_norm^2 = 2(n+1)/(1+delta_m0); Qcon, XY, Hopkins definitions.  '
-             'TESTED ONLY (not proved, bounded orders, tagged tested-not-proved): orthogonality of Jacobi/Chebyshev/Legendre/Hermite/Laguerre '
+             '(sin(|m|t) for m<0, cos(|m|t) for m>0) on the source text; zernike_norm^2 = 2(n+1)/(1+delta_m0); Qcon, XY, Hopkins definitions; '
+             'Q2d(n,m,r,t) = Q_n^|m|(r^2) r^|m| cos(|m|t) | sin(|m|t) (Qbfs for m = 0) with Q_n^m the model transcription of Forbes (2012) '
+             'appendix A (A.3 coefficients proved equal to the source for all n, m; Cholesky relations f_0^2 = F_0, f_(n+1)^2 + g_n^2 = F_(n+1)).  '
+             'ORTHOGONALITY PROVED FOR ALL ORDERS for the four Chebyshev families as written in the source: int_-1^1 T_n T_m (1-x^2)^(-1/2) = '
+             '0 | pi | pi/2, U under (1-x^2)^(1/2) (pi/2 delta), V under ((1+x)/(1-x))^(1/2) and W under ((1-x)/(1+x))^(1/2) (pi delta), and '
+             'as the instance (alpha,beta) in {+-1/2}^2 of Jacobi orthogonality under prysm.polynomials.jacobi.weight (real powers) for all n != m.  '
+             'Translated structural facts: the m = 1 correction of compute_z_zprime_Q2d (guard N > 2, constant 2/5, index 3, cosine and sine '
+             'sides alike); no id() / `is` / module-level or function-attribute or mutable-default state written from a function of the '
+             'polynomial modules other than value-keyed table entries.  '
+             'TESTED ONLY (not proved, bounded orders, tagged tested-not-proved): orthogonality of Jacobi (general alpha, beta)/Legendre/Hermite/Laguerre '
              'under their weights (Gram orders 0..12 quick / 0..26 thorough), Zernike orthonormality over the disk (n<=8/12), orthonormal Qbfs '
              'slopes (m<=8/14), 2D-Q gradients per |m|<=10/15 and across m and sin/cos partners on a 2-D grid; Qbfs orders >= 4 have no '
-             'independent definition (Forbes closed forms Q0..Q3 + slope orthonormality); 2D-Q (Q2d) has NO Lean model: it is checked by the '
-             'azimuthal convention R_n^|m|(u) cos(m t) / sin(|m| t) / Qbfs for m=0 at theta != 0 and by gradient orthonormality only.  '
+             'independent definition (Forbes closed forms Q0..Q3 + slope orthonormality); 2D-Q values are compared with the Lean model on Float, with '
+             'the harness\' own transcription of Forbes\' appendix (exact F, G, A, B, C) and with the azimuthal convention at theta != 0.  '
              'MODELLED AND COMPARED: every evaluator vs the Lean model on Float (1e-9) for orders 0..40, python-scalar/0-D/1-D/2-D/3-D points, '
              'int64/int32/float32 coordinates against the float64 evaluation (pure_call: arguments not modified, second call equal), exactly '
              'on Fraction inputs vs the Rat model where the path has no float; explicit DLMF sums as oracles; every family also through its '
              '*_seq entry point on gapped order lists, also as the last call of a float32 / integer / 2-D history started from the import-time state '
              'of the package; the n = 0 recurrence coefficients through their consumers (A_0 x + B_0 = P_1, Clenshaw sums with unit coefficient '
-             'vectors = P_k) on the singular lines alpha+beta = 0 and alpha+beta = -1 walked with alpha != beta; xy with the default cartesian_grid on meshgrids against x^m y^n; hopkins with array H.  '
+             'vectors = P_k) on the singular lines alpha+beta = 0 and alpha+beta = -1 walked with alpha != beta; xy with the default cartesian_grid on meshgrids against x^m y^n; hopkins with array H; '
+             'every summation routine (compute_z_zprime_Q2d / Qbfs / Qcon, jacobi_sum_clenshaw(_der)) against the explicit sum of the single '
+             'polynomials (values and first derivatives) for one-hot coefficient vectors at every position of every length 1..7, cosine and sine '
+             'sides separately, every m, + dense vectors of unequal lengths; keywords at their non-default value by name and by position on inputs '
+             'where they matter (cartesian_grid=False on rotated / sheared / polar / scattered / ij / 3-D coordinates for xy and xy_seq; norm on a varying '
+             '2-D t for zernike_nm / zernike_nm_seq); for EVERY value routine and every *_seq routine: evaluate, change a caller-owned coordinate '
+             'array in place (5 forms, each array argument in turn, optionally another evaluation in between), evaluate again on the same object '
+             '== evaluation at the current points, first result not overwritten.  '
              'NOT COVERED: float rounding at very high order (orders are capped at 40 / 25, the numerically meaningful limit is not located), '
              'complex coordinates for the scalar evaluators, cupy/torch backends.'),
     'note': ('Trusted: Lean kernel + propext/Classical.choice/Quot.sound; tools/gen_c07.py (Python statements -> Lean; element-wise NumPy '
